@@ -38,12 +38,12 @@ fn bitmap_data(o: &mut Obs, r: Result<BitmapData, ReadError>) {
     }
 }
 
-fn sizes(
+fn sizes<'a>(
     o: &mut Obs,
     env: &Env,
     sizes: &[BitmapSize],
-    offset_data: FontData,
-    data: &dyn Fn(&BitmapLocation) -> Option<Result<BitmapData<'_>, ReadError>>,
+    offset_data: FontData<'a>,
+    data: &dyn Fn(&BitmapLocation) -> Option<Result<BitmapData<'a>, ReadError>>,
 ) {
     for size in sizes.iter().take(env.cap(256, 6)) {
         let (s, e) = (size.start_glyph_index().to_u32(), size.end_glyph_index().to_u32());
@@ -96,7 +96,7 @@ fn sizes(
     }
 }
 
-pub fn bitmaps(o: &mut Obs, env: &Env, want: &dyn Fn(&[&[u8; 4]]) -> bool) {
+pub fn bitmaps<'a>(o: &mut Obs, env: &Env<'_, 'a>, want: &dyn Fn(&[&[u8; 4]]) -> bool) {
     let font = env.font;
     if want(&[b"CBLC", b"CBDT"]) {
         if let Ok(cblc) = font.cblc() {
